@@ -492,6 +492,17 @@ def run(pid, seed, budget=120):
     benign = benign_variants(sources)
     for name, src in benign:
         jobs.append((pid, "benign:" + name, src))
+    # hand-written behaviour-preserving refactorings (confirmed by the test suite and an output digest): must stay silent
+    broot = os.path.join(VERIF, "benign")
+    for d in sorted(os.listdir(broot)) if os.path.isdir(broot) else []:
+        pp = os.path.join(broot, d, "patch.diff")
+        if not os.path.exists(pp):
+            continue
+        src = apply_patch_in_memory(sources, pp)
+        if src is None:
+            lines.append("AUDIT-NOTE property=%s refactoring %s no longer applies to the current tree (skipped)" % (pid, d))
+            continue
+        jobs.append((pid, "benign:refactor:" + d, src))
     seeds = []
     for sid, patch in seeded_for(pid):
         src = apply_patch_in_memory(sources, patch)
